@@ -69,4 +69,5 @@ ba336bb C19 C10
 82a475f C09
 c1875a2 C14
 0d81d29 C11
+749e897 C19
 LIST
